@@ -1459,10 +1459,17 @@ class Container:
         if quantity_unit not in ('L', 'g', 'mol'):
             raise ValueError("We can only fill to mass or volume.")
 
-        current_quantity = sum(Unit.convert(substance, f"{value} {config.moles_storage_unit}", quantity_unit)
-                               for substance, value in self.contents.items() if not substance.is_enzyme())
+        current_quantity = sum(Unit.convert_from(substance, value,
+                                                 'U' if substance.is_enzyme() else config.moles_storage_unit,
+                                                 quantity_unit)
+                               for substance, value in self.contents.items())
 
         required_quantity = quantity - current_quantity
+        if required_quantity < 0:
+            # tolerate float noise when the container already holds exactly the requested quantity
+            if required_quantity < -1e-9 * current_quantity:
+                raise ValueError("Container already holds more than the requested quantity.")
+            required_quantity = 0.0
         result = self._add(solvent, f"{required_quantity} {quantity_unit}")
         required_volume = Unit.convert(solvent, f"{required_quantity} {quantity_unit}", 'L')
         required_volume, unit = Unit.get_human_readable_unit(required_volume, 'L')
